@@ -27,6 +27,7 @@ RULE = (
     "scalars, directives and resolvers of every bundle behave differently under the same names - and are also probed with that bundle's very request texts. Distinct = SHA-1 of (bundles, step order); non-trivial = some name is "
     "defined differently in >= 2 bundles and their registration steps were interleaved (not bundle after bundle)."
     " 30% of the bundles replace the built-in String by their own implementation (`scalar String` in their SDL)."
+    " 12% of the bundles carry a directive implementation with a non-coroutine hook: refused alone, they must be refused next to the others."
 )
 ASSUMPTIONS = ["responses compared as canonical JSON; harness values have address-free reprs"]
 
@@ -37,9 +38,21 @@ INTROSPECTION = """query I { __schema { queryType { name } mutationType { name }
  directives { name locations args { name defaultValue } } } }"""
 
 
+class SyncHookDirective:
+    """an implementation the engine must refuse at cook time: a hook that is not a coroutine function"""
+
+    def on_field_execution(self, directive_args, next_resolver, parent, args, ctx, info):
+        return None
+
+
 def make_harness(bundle, name):
     cls = c14.SubHarness if bundle["schema"]["roots"].get("subscription") else Harness
-    return cls(bundle["schema"], bundle["plan"], None, schema_name=name)
+    h = cls(bundle["schema"], bundle["plan"], None, schema_name=name)
+    if bundle.get("broken_hook"):
+        from tfv.impl import make_counting_directive
+
+        h.directive_factory = lambda n: SyncHookDirective if n == bundle["broken_hook"] else make_counting_directive(h, n)
+    return h
 
 
 def probe(h, bundle):
@@ -84,7 +97,10 @@ def solo_worker(bundle):
     boot.boot()
     clean_registry()
     h = make_harness(bundle, "solo")
-    run_async(h.build(**bundle.get("engine_kwargs", {})))
+    try:
+        run_async(h.build(**bundle.get("engine_kwargs", {})))
+    except Exception as e:  # noqa - a bundle that is refused alone must be refused next to others as well
+        return ["COOK_REFUSED:" + type(e).__name__]
     return probe(h, bundle)
 
 
@@ -190,7 +206,9 @@ def gen_bundle(c, index, clone_of=None):
             stack_group = clone_of["stack_group"] = index
         plan["scalar_tag"] = clone_of["plan"]["scalar_tag"]
     plan["scalar_stateful"] = True
-    return {"schema": schema, "plan": plan, "requests": requests, "subscriptions": subs, "engine_kwargs": {}, "variant": variant, "stack_group": stack_group}
+    custom = [n for n in (schema.get("directives") or {}) if n not in ("skip", "include", "deprecated", "nonIntrospectable")]
+    broken_hook = c.choice(custom) if custom and c.maybe(12) else None
+    return {"broken_hook": broken_hook, "schema": schema, "plan": plan, "requests": requests, "subscriptions": subs, "engine_kwargs": {}, "variant": variant, "stack_group": stack_group}
 
 
 def overlapping_names(bundles):
@@ -237,13 +255,24 @@ def run_scenario(spec):
                     kw["custom_default_type_resolver"] = h.make_type_resolver("engine")
                 h.engine = await create_engine(h.sdl, schema_name=h.name, **kw)
 
+            refused_alone = bool(spec["solo"][i]) and str(spec["solo"][i][0]).startswith("COOK_REFUSED")
             try:
                 run_async(cook())
+                if refused_alone:
+                    raise Violation(spec, "bundle %d (schema name b%d) is refused (%s) when built alone in a fresh process, but cooks next to the others\norder=%r\nSDL:\n%s" % (i, i, spec["solo"][i][0], spec["order"], hs[i].sdl), tag="cook_accepts")
+            except Violation:
+                raise
             except Exception as e:  # noqa
+                if refused_alone:
+                    cooked[i] = True
+                    hs[i].engine = None
+                    continue
                 raise Violation(spec, "bundle %d (schema name b%d) cannot be cooked next to the others (%r) although it builds alone in a fresh process\norder=%r\nSDL:\n%s" % (i, i, e, spec["order"], hs[i].sdl), tag="cook")
             cooked[i] = True
     assert all(cooked)
     for i, (h, b) in enumerate(zip(hs, bundles)):
+        if h.engine is None:
+            continue  # refused, alone and here
         got = probe(h, b)
         want = spec["solo"][i]
         if h.foreign:
